@@ -22,7 +22,13 @@ REFUSE_KINDS = ['for', 'while', 'call', 'chained-compare', 'tuple-target', 'floa
                 'nested-def', 'aug-tuple', 'in-compare',
                 # match patterns other than a literal value / `_` : no PySyntax constructor exists for them
                 'match-capture', 'match-as', 'match-or', 'match-sequence', 'match-star', 'match-class', 'match-mapping',
-                'match-guarded-wildcard']
+                'match-guarded-wildcard',
+                # the remaining statement / expression / operator / pattern node kinds of `ast` (AST_KINDS below is checked against
+                # `ast` itself on every run: a node kind of the running Python that is not classified there is reported)
+                'return-bare', 'delete', 'annassign', 'with', 'raise', 'try', 'trystar', 'import', 'importfrom', 'global', 'pass',
+                'async-def', 'classdef', 'typealias', 'yield', 'yieldfrom', 'dict', 'set', 'listcomp', 'setcomp', 'dictcomp',
+                'genexp', 'fstring', 'starred', 'tuple-value', 'matmult', 'isnot-compare', 'notin-compare', 'match-singleton',
+                'other-call', 'call-keyword']
 
 
 class G:
@@ -284,7 +290,91 @@ def refuse_snippet(kind, rng, g):
         'match-mapping': [f'match {a} & 3:', '    case {1: v}:', f'        {o}.{wr}(5)', '    case _:', f'        {o}.{wr}(2)'],
         'match-guarded-wildcard': [f'match {a} & 3:', '    case 0:', f'        {o}.{wr}(7)', f'    case _ if {a} > 0:', f'        {o}.{wr}(5)',
                                    '    case _:', f'        {o}.{wr}(2)'],
+        'return-bare': [f'{o}.{wr}({a})', 'return'],
+        'delete': [f'x = {a}', f'{o}.{wr}(x)', 'del x'],
+        'annassign': [f'x: int = {a}', f'{o}.{wr}(x)'],
+        'with': ['with self.ctx():', f'    {o}.{wr}({a})'],
+        'raise': [f'if {a} > 300:', '    raise ValueError()', f'{o}.{wr}({a})'],
+        'try': ['try:', f'    {o}.{wr}({a})', 'except ValueError:', f'    {o}.{wr}(0)'],
+        'trystar': ['try:', f'    {o}.{wr}({a})', 'except* ValueError:', f'    {o}.{wr}(0)'],
+        'import': ['import math', f'{o}.{wr}({a})'],
+        'importfrom': ['from math import floor', f'{o}.{wr}({a})'],
+        'global': ['global c02_zz', f'{o}.{wr}({a})'],
+        'pass': [f'if {a} > 2:', '    pass', f'{o}.{wr}({a})'],
+        'async-def': ['async def h(z):', '    async for q in z:', '        await q', '    async with z as y:', '        pass', f'{o}.{wr}({a})'],
+        'classdef': ['class Inner:', '    pass', f'{o}.{wr}({a})'],
+        'typealias': ['type Word = int', f'{o}.{wr}({a})'],
+        'yield': [f'{o}.{wr}({a})', 'yield 1'],
+        'yieldfrom': [f'{o}.{wr}({a})', 'yield from ()'],
+        'dict': ['x = {1: 2}', f'{o}.{wr}({a})'],
+        'set': ['x = {1, 2}', f'{o}.{wr}({a})'],
+        'listcomp': [f'x = [z for z in range(3)]', f'{o}.{wr}({a})'],
+        'setcomp': [f'x = {{z for z in range(3)}}', f'{o}.{wr}({a})'],
+        'dictcomp': [f'x = {{z: z for z in range(3)}}', f'{o}.{wr}({a})'],
+        'genexp': [f'x = (z for z in range(3))', f'{o}.{wr}({a})'],
+        'fstring': [f'x = f"v={{{a}}}"', f'{o}.{wr}({a})'],
+        'starred': ['x = [*(1, 2)]', f'{o}.{wr}({a})'],
+        'tuple-value': ['x = (1, 2)', f'{o}.{wr}({a})'],
+        'matmult': [f'{o}.{wr}({a} @ 2)'],
+        'isnot-compare': [f'if {a} is not 0:', f'    {o}.{wr}(1)'],
+        'notin-compare': [f'if {a} not in (1, 2):', f'    {o}.{wr}(1)'],
+        'match-singleton': [f'match {a} & 3:', '    case None:', f'        {o}.{wr}(5)', '    case _:', f'        {o}.{wr}(2)'],
+        'other-call': [f'{o}.{wr}(abs({a}))'],
+        'call-keyword': [f'{o}.{wr}(int({a}, base=10))'],
     }[kind]
+
+
+# every statement / expression / operator / pattern node kind of `ast`: part of the subset, or the refusal-stream kind(s) that
+# exercise it, or "nested-only" (cannot occur in a method body except inside the named refused construct)
+AST_KINDS = {
+    # statements
+    'FunctionDef': ('refuse', ['nested-def']), 'AsyncFunctionDef': ('refuse', ['async-def']), 'ClassDef': ('refuse', ['classdef']),
+    'Return': ('refuse', ['return-value', 'return-bare']), 'Delete': ('refuse', ['delete']), 'Assign': ('subset', 'single Name / self.attr target'),
+    'TypeAlias': ('refuse', ['typealias']), 'AugAssign': ('subset', ''), 'AnnAssign': ('refuse', ['annassign']), 'For': ('refuse', ['for']),
+    'AsyncFor': ('nested-only', 'AsyncFunctionDef'), 'While': ('refuse', ['while']), 'If': ('subset', ''), 'With': ('refuse', ['with']),
+    'AsyncWith': ('nested-only', 'AsyncFunctionDef'), 'Match': ('subset', 'value patterns and `case _`'), 'Raise': ('refuse', ['raise']),
+    'Try': ('refuse', ['try']), 'TryStar': ('refuse', ['trystar']), 'Assert': ('subset', 'removed'), 'Import': ('refuse', ['import']),
+    'ImportFrom': ('refuse', ['importfrom']), 'Global': ('refuse', ['global']), 'Nonlocal': ('nested-only', 'FunctionDef'),
+    'Expr': ('subset', 'put / prepare / print / docstring'), 'Pass': ('refuse', ['pass']), 'Break': ('nested-only', 'While'),
+    'Continue': ('nested-only', 'While'),
+    # expressions
+    'BoolOp': ('subset', ''), 'NamedExpr': ('refuse', ['walrus']), 'BinOp': ('subset', ''), 'UnaryOp': ('subset', ''), 'Lambda': ('refuse', ['lambda']),
+    'IfExp': ('subset', 'accepted, mistranslated: finding C02-ternary-not-verilog; inside a call: ternary-in-call'), 'Dict': ('refuse', ['dict']),
+    'Set': ('refuse', ['set']), 'ListComp': ('refuse', ['listcomp']), 'SetComp': ('refuse', ['setcomp']), 'DictComp': ('refuse', ['dictcomp']),
+    'GeneratorExp': ('refuse', ['genexp']), 'Await': ('nested-only', 'AsyncFunctionDef'), 'Yield': ('refuse', ['yield']),
+    'YieldFrom': ('refuse', ['yieldfrom']), 'Compare': ('subset', 'single comparison; chained: chained-compare'),
+    'Call': ('subset', 'w.get() / w.put(e) / w.prepare(e) / getParameterValue / print / ord; others: call, other-call, call-keyword'),
+    'FormattedValue': ('nested-only', 'JoinedStr'), 'JoinedStr': ('refuse', ['fstring']),
+    'Constant': ('subset', 'int / bool (str as docstring); float: float-const, str: string-const'), 'Attribute': ('subset', 'self.x'),
+    'Subscript': ('refuse', ['subscript']), 'Starred': ('refuse', ['starred']), 'Name': ('subset', ''), 'List': ('refuse', ['list-literal']),
+    'Tuple': ('refuse', ['tuple-target', 'tuple-value']), 'Slice': ('nested-only', 'Subscript'),
+    # operators
+    'Add': ('subset', ''), 'Sub': ('subset', ''), 'Mult': ('subset', ''), 'MatMult': ('refuse', ['matmult']), 'Div': ('refuse', ['truediv']),
+    'Mod': ('subset', ''), 'Pow': ('refuse', ['pow']), 'LShift': ('subset', ''), 'RShift': ('subset', ''), 'BitOr': ('subset', ''),
+    'BitXor': ('subset', ''), 'BitAnd': ('subset', ''), 'FloorDiv': ('subset', ''),
+    'Invert': ('subset', ''), 'Not': ('subset', ''), 'UAdd': ('refuse', ['unary-plus']), 'USub': ('subset', ''),
+    'Eq': ('subset', ''), 'NotEq': ('subset', ''), 'Lt': ('subset', ''), 'LtE': ('subset', ''), 'Gt': ('subset', ''), 'GtE': ('subset', ''),
+    'Is': ('refuse', ['is-compare']), 'IsNot': ('refuse', ['isnot-compare']), 'In': ('refuse', ['in-compare']), 'NotIn': ('refuse', ['notin-compare']),
+    'And': ('subset', ''), 'Or': ('subset', ''),
+    # match patterns
+    'MatchValue': ('subset', ''), 'MatchSingleton': ('refuse', ['match-singleton']), 'MatchSequence': ('refuse', ['match-sequence']),
+    'MatchMapping': ('refuse', ['match-mapping']), 'MatchClass': ('refuse', ['match-class']), 'MatchStar': ('refuse', ['match-star']),
+    'MatchAs': ('subset', 'only the bare wildcard `_`; capture: match-capture, as: match-as, guarded wildcard: match-guarded-wildcard'),
+    'MatchOr': ('refuse', ['match-or']),
+}
+
+
+def ast_kind_audit():
+    """-> (unclassified node kinds of the running Python's `ast`, classified kinds that no longer exist, refuse kinds without
+    snippet, snippet kinds that are not valid Python).  All four must be empty."""
+    import ast
+    kinds = []
+    for base in (ast.stmt, ast.expr, ast.operator, ast.unaryop, ast.cmpop, ast.boolop, ast.pattern):
+        kinds += [c.__name__ for c in base.__subclasses__()]
+    unclassified = [k for k in kinds if k not in AST_KINDS]
+    gone = [k for k in AST_KINDS if k not in kinds]
+    missing = [r for k, (st, v) in AST_KINDS.items() if st == 'refuse' for r in v if r not in REFUSE_KINDS]
+    return unclassified, gone, missing
 
 
 def gen_class(rng, idx, profile, refuse_kind=None):
@@ -361,14 +451,10 @@ def _ap(op, a, b):
 
 
 def _rhs_safe(outer, inner):
-    """mirror of Tp.safeRhs: the right comparator is emitted bare"""
-    if outer not in NEST_CMP:
-        return True
-    if inner in ('band', 'bor', 'bxor'):
-        return False
-    if inner in NEST_CMP:
-        return outer in ('eq', 'ne') and inner not in ('eq', 'ne')
-    return True
+    """expressions kept in a class of their own because Tp.supported excludes them (they must not mask the others):
+    a comparison as shift AMOUNT is 1 bit wide, which `Tp.exact` conservatively rejects (narrow-shift).
+    (The right comparator is parenthesised like any other operand since /repo 72c6814: no longer a reason.)"""
+    return not (outer in ('shl', 'shr') and inner in NEST_CMP)
 
 
 def nest_vectors(rng, outer, inner, side, n_diff=3, n_rand=2):
